@@ -54,9 +54,12 @@ CountIn(s, x) == Cardinality({ i \in DOMAIN s : s[i] = x })
 LogSubBag(log, bag) == \A i \in DOMAIN log : log[i] \in DOMAIN bag /\ CountIn(log, log[i]) <= bag[log[i]]
 LogEqBag(log, bag) == LogSubBag(log, bag) /\ \A c \in DOMAIN bag : CountIn(log, c) = bag[c]
 
-\* fault plan: [kind |-> "none" | "fail" | "cancel", at |-> k]; ret: "nil" | "cb" | "ctx" | "other"
+\* fault plan: [kind |-> "none" | "fail" | "cancel" | "precancel", at |-> k]; ret: "nil" | "cb" | "ctx" | "other"
+\* "precancel": the context is already cancelled when Authorize is called -- no callback, the context's error
+\* (also when a value list is empty and there is nothing to enumerate)
 Acceptable(ps, t, vars, fault, log, ret) ==
   IF PreError(t, vars) THEN log = <<>> /\ ret = "other"
+  ELSE IF fault.kind = "precancel" THEN log = <<>> /\ ret = "ctx"
   ELSE IF NoWork(t, vars) THEN log = <<>> /\ ret = "nil"
   ELSE LET bag == ExpectedBag(ps, t, vars)  n == Total(vars) IN
        IF fault.kind = "none" \/ fault.at > n THEN LogEqBag(log, bag) /\ ret = "nil"
